@@ -29,17 +29,18 @@ FyBig == {[kind |-> "fy",
 
 \* ---- nseq / shuffle
 Lens == IF Thorough THEN 0..1100
-        ELSE (0..34) \cup {63, 64, 65, 127, 128, 129, 255, 256, 257, 341, 1023, 1024, 1100}
+        ELSE (0..26) \cup {31, 32, 33, 63, 64, 65, 127, 128, 129, 255, 256, 257, 341, 1023, 1100}
 NseqLens == IF Thorough THEN (0..72) \cup {n \in 73..1100 : n % 64 \in {0, 1, 63}} \cup {1023, 1100} ELSE Lens
 NseqCases == {[kind |-> "nseq", h |-> Ent(l, 1), l |-> l, queries |-> HashQueries(Ent(l, 1), l)] : l \in NseqLens}
              \cup {[kind |-> "nseq", h |-> hh, l |-> 20, queries |-> HashQueries(hh, 20)] : hh \in {Zeros(32), Rep(255, 32)}}
 Input(l, d) == CASE d = 0 -> [i \in 1..l |-> i - 1]
                  [] d = 1 -> [i \in 1..l |-> (i - 1) \div 3]
                  [] d = 2 -> [i \in 1..l |-> 2147483647 - i]
-ShuffleCases == {[kind |-> "shuffle", h |-> Ent(l, 2 + d), s |-> Input(l, d), queries |-> HashQueries(Ent(l, 2 + d), l)]
-                 : l \in Lens, d \in (IF Thorough THEN {0} ELSE {0, 1, 2})}
+ShufflePairs == {p \in Lens \X {0, 1, 2} : IF Thorough THEN p[2] = 0 ELSE (p[1] <= 1000 \/ p[2] # 2)}
+ShuffleCases == {[kind |-> "shuffle", h |-> Ent(p[1], 2 + p[2]), s |-> Input(p[1], p[2]), queries |-> HashQueries(Ent(p[1], 2 + p[2]), p[1])]
+                 : p \in ShufflePairs}
                 \cup {[kind |-> "shuffle", h |-> Ent(l, 7 + d), s |-> Input(l, d), queries |-> HashQueries(Ent(l, 7 + d), l)]
-                      : l \in {5, 6, 31, 32, 33, 1023}, d \in {1, 2}}
+                      : l \in {5, 6, 31, 32, 33} \cup (IF Thorough THEN {1023} ELSE {}), d \in {1, 2}}
 
 \* ---- rot
 RotCases == {[kind |-> "rot", C |-> c, in |-> [i \in 1..(2 * c + 1) |-> (i * 5) % c], n |-> n]
